@@ -896,6 +896,23 @@ func checkEth(t *rapid.T, hashBits, payloadBits int) {
 		}
 		e.mustReject("payloadbit:"+region, "eth_payload_bit_"+region, m, fmt.Sprintf("payload bit %d flipped; declared sender/hash/fields are those of the original payload", p))
 	}
+	// length-changing relatives of the signed payload (declared fields and hash kept): bytes appended, a second
+	// copy appended, bytes prepended, the last byte cut off - the data is no longer exactly the signed RLP payload
+	tail := rapid.SliceOfN(rapid.Byte(), 1, 5).Draw(t, "payloadTail")
+	for _, v := range []struct {
+		name string
+		b    []byte
+	}{
+		{"tail_appended", append(append([]byte{}, payload...), tail...)},
+		{"zero_byte_appended", append(append([]byte{}, payload...), 0)},
+		{"payload_twice", append(append([]byte{}, payload...), payload...)},
+		{"byte_prepended", append([]byte{tail[0]}, payload...)},
+		{"last_byte_cut", append([]byte{}, payload[:len(payload)-1]...)},
+	} {
+		m = clone(base)
+		m.ExtraData = hex0x(v.b)
+		e.mustReject("payloadlen", "eth_payload_"+v.name, m, "the payload carried is not exactly the signed RLP transaction ("+v.name+")")
+	}
 	// payload replaced by another honestly signed payload of the same key (nonce changed)
 	f2 := f
 	f2.nonce = mutU64(t, f.nonce, "mNonce2")
